@@ -3,7 +3,7 @@
    and terminates is C04; the exit status is decided by main.rs from the verdict, see Cli.wellformed_exit, and is checked on the
    real binary by the correspondence run). *)
 From Coq Require Import List ZArith Lia Bool Arith.
-Require Import HP1 Cao1 Cao5 Cao6 Rooms Spec Valid Node NoPanic RoomThms RoomSites WfPres Solve.
+Require Import HP1 Cao1 Cao5 Cao6 Rooms Spec Valid Node NoPanic WfCheck RoomThms RoomSites WfPres Solve.
 Require EngP2.
 Import ListNotations.
 Open Scope nat_scope.
@@ -23,6 +23,18 @@ Proof.
   intros courses parts esize shrinkf rooms nd s V FS Hwf H.
   apply (run_panic_sites courses parts _ _ (valid_one _ _ V) (v_minmax _ _ V) (fun _ => False) (fun s' Hs => match Hs with end)
            (fun nd' a s' Hp => room_gate_no_site courses esize shrinkf rooms nd' a s' FS Hp) nd s (wf2_wf courses nd Hwf) H).
+Qed.
+
+(* the same for the executable class predicate of the node correspondence (which also runs random, unreachable nodes): whenever
+   validb, float_saneb and node_wfb answer true the node model ends in no panic site *)
+Theorem C10_node_class : forall courses parts esize shrinkf rooms nd s,
+  Spec.validb courses parts = true -> float_saneb courses esize shrinkf rooms = true -> node_wfb courses nd = true ->
+  run_full courses parts esize shrinkf rooms nd <> Panic s.
+Proof.
+  intros courses parts esize shrinkf rooms nd s Hv Hf Hw H. pose proof (validb_valid courses parts Hv) as V.
+  apply (run_panic_sites courses parts _ _ (valid_one _ _ V) (v_minmax _ _ V) (fun _ => False) (fun s' Hs => match Hs with end)
+           (fun nd' a s' Hp => room_gate_no_site courses esize shrinkf rooms nd' a s' (float_saneb_spec courses esize shrinkf rooms Hf) Hp)
+           nd s (node_wfb_wf courses nd Hw) H).
 Qed.
 
 (* the root is well-formed and well-formedness is inherited by every child the node function generates ... *)
@@ -80,8 +92,9 @@ Proof.
   apply (run_panic_sites courses parts _ _ (valid_one _ _ V) (v_minmax _ _ V) (fun _ => False) (fun s' Hs => match Hs with end) Hg nd s (wf2_wf courses nd Hwf) H).
 Qed.
 
-Check C10_float_sane_checker. Check C10_node. Check C10_root_wf. Check C10_children_wf. Check C10_search. Check C10_no_failure. Check C10_never_stuck. Check C10_node_noroom.
+Check C10_float_sane_checker. Check C10_node. Check C10_node_class. Check C10_root_wf. Check C10_children_wf. Check C10_search. Check C10_no_failure. Check C10_never_stuck. Check C10_node_noroom.
 Print Assumptions C10_node.
+Print Assumptions C10_node_class.
 Print Assumptions C10_children_wf.
 Print Assumptions C10_search.
 Print Assumptions C10_no_failure.
